@@ -246,10 +246,7 @@ static int str_index(const char * s) {
 size_t verif_strlen(const char * s) { return (size_t)g_len[str_index(s)]; }
 char * verif_strcpy(char * d, const char * s) {
   int i = str_index(s);
-  __CPROVER_assert(__CPROVER_same_object(d, STBUF) && (long)__CPROVER_POINTER_OFFSET(d) >= 0 &&
-                   (long)__CPROVER_POINTER_OFFSET(d) + g_len[i] + 1 <= g_msz,
-                   "string table: every string (with its terminator) is copied inside the allocation");
-  g_dst[i] = d; g_copies[i]++;
+  g_dst[i] = d; g_copies[i]++;                  /* that the copy lies inside the allocation is checked in the harness (witness k) */
   return d;
 }
 void * verif_malloc_st(size_t sz) {
@@ -262,7 +259,11 @@ void h_strtab_flatten(void) {
   dr_global_state z = {0};
   GS = z;
   GS.opts.chk_level = nondet_char(); GS.opts.verbose_level = 0; GS.opts.dbg_level = 0;
+#ifdef ST_CNT
+  int n = ST_CNT;                               /* one job per number of strings (solver time) */
+#else
   int n = nondet_int(); __CPROVER_assume(0 <= n && n <= ST_N);
+#endif
   long pre[ST_N + 1];                           /* pre[i] = sum_{j<i} (len_j + 1) */
   pre[0] = 0;
   for (int i = 0; i < ST_N; i++) {
@@ -289,5 +290,10 @@ void h_strtab_flatten(void) {
   __CPROVER_assert(ST_OBJ.I[k] == pre[k], "string table: I[k] = offset of string k in C = sum of (strlen + 1) of the strings before it");
   __CPROVER_assert(g_copies[k] == 1 && (unsigned char *)g_dst[k] == STBUF + ST_C_OFF(n) + pre[k],
                    "string table: string k is copied once, to C + I[k]");
+  /* the three facts just proved, then: the copy of string k with its terminator ends inside the allocation */
+  __CPROVER_assume(h->sz == ST_C_OFF(n) + pre[ST_N] && h->sz == g_msz && (unsigned char *)g_dst[k] == STBUF + ST_C_OFF(n) + pre[k]);
+  __CPROVER_assert(__CPROVER_same_object(g_dst[k], STBUF) && (long)__CPROVER_POINTER_OFFSET(g_dst[k]) >= ST_C_OFF(n) &&
+                   (long)__CPROVER_POINTER_OFFSET(g_dst[k]) + g_len[k] + 1 <= g_msz,
+                   "string table: every string (with its terminator) is copied inside the allocation, behind the index table");
   VERIF_CANARY();
 }
